@@ -72,6 +72,7 @@ PROPS["C06"] = dict(
 )
 
 PROPS["C05"] = dict(
+    env={"VF_SHRINKTIME": "40s"},
     pkg="c05", race=False, level="fault_enumeration", prepare="exec_projects", crash_is_violation=True,
     projects_quick=[("core", ["v0", "w1", "w2", "w8"])],
     projects_thorough=[("core", ["v0", "w1", "w2", "w8", "v1"])],
@@ -90,6 +91,7 @@ PROPS["C05"] = dict(
 )
 
 PROPS["C13"] = dict(
+    env={"VF_SHRINKTIME": "40s"},
     pkg="c13", race=False, level="exploration", prepare="exec_projects",
     projects_quick=[("core", ["v0", "v1", "w2"])],
     projects_thorough=[("core", ["v0", "v1", "w2", "v4"])],
@@ -237,6 +239,7 @@ PROPS["C07"] = dict(
 )
 
 PROPS["C12"] = dict(
+    env={"VF_SHRINKTIME": "40s"},
     pkg="c12", race=True, level="exploration",
     quick=dict(shards=8, timeout=900), thorough=dict(shards=16, timeout=3000),
     claim="property-based testing of the SSE and multipart/mixed transports over a real TCP connection against a scripted executable "
@@ -252,6 +255,29 @@ PROPS["C12"] = dict(
     rule="evaluation = one streamed response; non-trivial = >=2 payloads and a keep-alive or aggregator tick fell between two payloads "
          "(gap >= interval); distinct by the case",
     assumptions=["mime/multipart from the standard library and the harness event-stream parser decide framing"],
+)
+
+PROPS["C11"] = dict(
+    env={"VF_SHRINKTIME": "40s"},
+    pkg="c11", race=True, level="exploration", prepare="exec_projects", crash_is_violation=True,
+    projects_quick=[("core", ["v0"])], projects_thorough=[("core", ["v0"])],
+    quick=dict(shards=16, timeout=1200), thorough=dict(shards=16, timeout=6000),
+    claim="model-based session testing of the websocket transport (graphql-ws and graphql-transport-ws) against a generated server over "
+          "a real connection: rapid draws sessions of client actions (init with object / non-object / null payloads or none, start of "
+          "subscriptions, queries, mutations, invalid documents, non-object and null payloads, stop, ping, pong, terminate, invalid "
+          "frames, abrupt TCP close) interleaved with server-side events driven through the plan (events with gaps, resolver errors and "
+          "panics, init function accept/reject, server context cancellation, 200us-1ms keep-alive and ping tickers); safety invariants over "
+          "the received frame history: strict JSON frames, no operation frame before connection_ack, no ack and no resolver before the init "
+          "function accepted, per id next* then error and/or complete with at most one complete, nothing after it and no result after an "
+          "error, the n-th result equals event n of the reference executor; after the connection ends: CloseFunc ran exactly once, no "
+          "transport goroutine remains parked (goroutine-dump witness), event sources saw their context cancelled; race detector silent, "
+          "a crash (gorilla's concurrent-write panic) is a violation",
+    note="ids are never reused within a session (concurrent duplicate ids are a client protocol violation whose handling is undocumented); "
+         "'receives its results' is checked at session end only, with a witness, otherwise inconclusive",
+    technique="model-based state-machine property testing (rapid) with history invariants + goroutine-dump witnesses + race detector",
+    rule="evaluation = one session; non-trivial = >=2 overlapping multi-event subscriptions, or a stop racing a multi-event subscription; "
+         "distinct by the session",
+    assumptions=["gorilla/websocket as client", "the harness event source selects on the operation context"],
 )
 
 # properties deliberately not claimed (reason); anything else missing from PROPS is "not built yet"
